@@ -36,7 +36,7 @@ func (c14) RequiredBuckets(tier string) []string {
 	for _, k := range c14Commands {
 		out = append(out, "cmd:"+k, "hit:"+k)
 	}
-	out = append(out, "shape:a,b,a,b", "aspect:command", "input:multi-MiB", "shape:a,a", "shape:a,a',a", "shape:-o", "shape:bad,bad", "aspect:option", "aspect:positional", "aspect:secondary-input", "aspect:primary-input", "aspect:format", "help-crosscheck")
+	out = append(out, "shape:a,b,a,b", "aspect:command", "input:multi-MiB", "input:regular-file-stdin", "shape:a,a", "shape:a,a',a", "shape:-o", "shape:bad,bad", "aspect:option", "aspect:positional", "aspect:secondary-input", "aspect:primary-input", "aspect:format", "help-crosscheck")
 	return out
 }
 func (c14) Findings() []fw.Finding { return nil }
@@ -46,13 +46,17 @@ type inv struct {
 	stdin string            // key into inputs
 	files map[string]string // relative path -> key into inputs
 	out   string            // "" = stdout, else relative -o path
+	// stdinAt >= 0: stdin is a regular file opened on the input and positioned
+	// stdinAt bytes into it (gts cmd < file); -1 (zero value + 1 below): a pipe.
+	stdinFile bool
+	stdinAt   int
 }
 
 func (v inv) withOut(p string) inv { v.out = p; return v }
 
 func (v inv) key(inputs map[string][]byte) string {
 	h := sha1.New()
-	fmt.Fprintf(h, "%q|%s|", v.args, v.out)
+	fmt.Fprintf(h, "%q|%s|%v|%d|", v.args, v.out, v.stdinFile, v.stdinAt)
 	h.Write(inputs[v.stdin])
 	var names []string
 	for n := range v.files {
@@ -72,6 +76,9 @@ func (v inv) String() string {
 		s += " -o " + v.out
 	}
 	s += " <" + v.stdin
+	if v.stdinFile {
+		s += fmt.Sprintf(" (a regular file, read position %d)", v.stdinAt)
+	}
 	for n, k := range v.files {
 		s += fmt.Sprintf(" [%s=%s]", n, k)
 	}
@@ -104,7 +111,12 @@ func (x *c14run) exec(env *cli.Env, v inv, nocache bool) outcome {
 	if nocache {
 		args = append(args, "--no-cache")
 	}
-	r := env.Run(args, x.inputs[v.stdin], nil, 60*time.Second)
+	var r cli.Result
+	if v.stdinFile {
+		r = env.RunFile(args, x.inputs[v.stdin], v.stdinAt, nil, 60*time.Second)
+	} else {
+		r = env.Run(args, x.inputs[v.stdin], nil, 60*time.Second)
+	}
 	o := outcome{out: r.Stdout, exit: r.Exit}
 	if r.TimedOut {
 		o.bad = "watchdog"
@@ -297,6 +309,28 @@ func c14Plans() []cmdPlan {
 		b := mk("summary")
 		n := []neighbour{{"option", "-F", with(b, "-F")}, {"option", "-Q", with(b, "-Q")}, {"primary-input", "other input", stdin(b, "pbat5.gb")}}
 		plans = append(plans, cmdPlan{"summary", b, n, []string{"no-feature", "no-qualifier"}})
+	}
+	// values that begin like the option's default (or like a valid value) and
+	// go on: rejected, or simply different - never answered from the entry of
+	// the run they resemble.
+	for i := range plans {
+		p := &plans[i]
+		if len(p.base.args) != 1 {
+			continue
+		}
+		var extra [][]string
+		switch p.name {
+		case "query":
+			extra = [][]string{{"-t", ",;"}, {"-t", ",,"}, {"-d", "\t|"}}
+		case "select":
+			extra = [][]string{{"-s", "bothx"}, {"-s", "forwardx"}}
+		case "search":
+			continue
+		}
+		extra = append(extra, []string{"-F", "fastax"}, []string{"-F", "genbank "})
+		for _, o := range extra {
+			p.neigh = append(p.neigh, neighbour{"option", "value that extends a default or valid value: " + strings.Join(o, " "), with(p.base, o...)})
+		}
 	}
 	return plans
 }
@@ -557,6 +591,27 @@ func (m c14) Run(c *fw.Ctx) {
 				x.history(p.name, "bad,good,bad", "primary-input", "failing input "+bad+", good, failing", []inv{b, a, b, a}, true)
 			}
 		}
+	}
+	// stdin bound to a regular file (gts cmd < file), read from its start and
+	// from the start of its second record (a shell group whose first command
+	// consumed the first record): each run answers for the bytes it can read.
+	doneFile := map[string]bool{}
+	for _, p := range plans {
+		if doneFile[p.name] || p.base.stdin != "phix.gb" || len(p.base.files) > 0 {
+			continue
+		}
+		doneFile[p.name] = true
+		if !c.NextShared() {
+			continue
+		}
+		a0 := p.base
+		a0.stdin, a0.stdinFile, a0.stdinAt = "multi.gb", true, 0
+		a1 := a0
+		a1.stdinAt = len(x.inputs["phix.gb"])
+		pipe := p.base
+		pipe.stdin = "multi.gb"
+		x.history(p.name, "a,a", "primary-input", "stdin is a regular file at its start / at its second record / a pipe", []inv{a0, a1, pipe, a1, a0}, true)
+		c.Bucket("input:regular-file-stdin")
 	}
 	// an output of several MiB (many deflate blocks, many writes) is replayed whole.
 	doneBig := map[string]bool{}
